@@ -121,6 +121,12 @@ C02_RenderedSummary == R.hasfile = 1 =>
                            /\ F.summary[j].label = Printed[k].label
                            /\ Near(F.summary[j].pka * 10000, Printed[k].pka6, 5001)
 
+(* ========================== C14: un-listed groups are partners and environment, nothing more ======================= *)
+(* R.others[c] = <<input line, type, titrates, scored>> for the groups that neither titrate nor are reported: under a
+   titrate-only list no desolvation (volume, local term, neighbour count) is computed for them *)
+C14_UnlistedUnscored == R.opts.tonly = 1 =>
+                          \A c \in Confs : \A k \in 1..Len(R.others[c]) : R.others[c][k][3] = 0 => R.others[c][k][4] = 0
+
 (* ========================== C15: stars and symmetry ============================= *)
 ByGid(c, gid) == {k \in 1..Len(Gs(c)) : Gs(c)[k].gid = gid}
 C15_Symmetric == \A c \in Confs : \A k \in 1..Len(Gs(c)) : \A n \in 1..Len(Gs(c)[k].ncc) :
@@ -159,10 +165,18 @@ C16_CoulombSource == R.opts.tonly = 0 =>
                       \A n \in 1..Len(g.cb) :
                          \/ g.cb[n][6] = 1
                          \/ (g.cb[n][4] = "ION" /\ \E j \in ByGid(c, g.cb[n][1]) : Gs(c)[j].resn \in DOMAIN Cfg.ions)
+(* the configured exception values belong to pair classes: COO-HIS, OCO-HIS, CYS-HIS, CYS-CYS (either order) *)
+ExcFor(t1, t2) ==
+  LET p == {t1, t2} IN
+  IF p = {"COO", "HIS"} THEN Scal.COO_HIS_exception
+  ELSE IF p = {"OCO", "HIS"} THEN Scal.OCO_HIS_exception
+  ELSE IF p = {"CYS", "HIS"} THEN Scal.CYS_HIS_exception
+  ELSE IF p = {"CYS"} THEN Scal.CYS_CYS_exception
+  ELSE 0
 C16_SidechainBound == \A c \in Confs : \A k \in Scored(c) : LET g == Gs(c)[k] IN
                       \A n \in 1..Len(g.sc) :
                          \/ Abs(g.sc[n][3]) <= 2 * Scal.sidechain_interaction + 2
-                         \/ \E e \in Exceptions : Abs(g.sc[n][3]) <= e + 2
+                         \/ Abs(g.sc[n][3]) <= ExcFor(g.type, g.sc[n][4]) + 2
 (* acid-base pair of reported protein side chains: equal and opposite Coulomb determinants *)
 C16_AcidBasePair == \A c \in Confs : \A k \in Scored(c) : LET g == Gs(c)[k] IN
                       (g.het = 0 /\ g.pen = -1) =>         \* "reported": penalised groups are not printed
